@@ -75,57 +75,9 @@ def run(ctx):
     SFIELD = [x["name"] for x in er_fields if x["ty"] == "usize"]
     ctx.require(len(RFIELD) == 1 and len(SFIELD) == 1, "C09.2: inner-reader / remaining-size fields of EqualReader")
     RFIELD, SFIELD = RFIELD[0], SFIELD[0]
-    f = inline.inlined(facts, erd.id, stop=lambda d: facts.fns[d].rec.get("local") and (facts.fns[d].file != erd.file or "as std::io::Read>::read" in d))
-    ctx.touch(f)
-    reads = [bb for bb, t in f.calls() if (t.get("callee") == "std::io::Read::read" or call_matches(t, r" as std::io::Read>::read$")) and RFIELD in arg_origin_fields(f, t)]
-    if not reads:
-        ctx.ob("C09.2", "%s|reads-inner" % erd.id, "the destructor of the length-limited reader reads the rest of the body from its inner reader", False, "%s:%d" % (f.file, f.line))
-        reads = []
-    for i, rb in enumerate(reads):
-        ctx.ob("C09.2", "%s|read-in-loop|%d" % (f.id, i), "the discard read is repeated (loop)", f.in_loop(rb), f.loc(rb))
-    # loop condition: remaining > 0 (remaining derives from self.size)
-    conds = []
-    for bb in sorted(f.live_blocks()):
-        bs = bool_switch(f, bb)
-        if not bs:
-            continue
-        o = f.origin(bs[0])
-        if o[0] == "binop" and o[1] in ("Gt", "Ne", "Lt", "Ge", "Le", "Eq"):
-            conds.append((bb, o, bs))
-    ok_enter = False
-    for bb, o, bs in conds:
-        # the edge taken when remaining > 0 must reach the read before any return
-        for tgt in (bs[1], bs[2]):
-            if any(r in f.reach([tgt], unwind=False) for r in reads):
-                reach = f.reach([tgt], blocked=set(reads), unwind=False)
-                if not any(r in reach for r in f.returns()) and any(f.dominates(bb, r, unwind=False) for r in reads):
-                    ok_enter = True
-    ctx.ob("C09.2", "%s|remaining-implies-read" % f.id, "whenever bytes remain the destructor reads (no early exit before the read)", ok_enter, "%s:%d" % (f.file, f.line))
-    # decrement by the returned count on the loop-back path
-    decs = []
-    for bb, i, s in f.assigns():
-        r = s["rhs"]
-        if r["rv"] == "binop" and r["op"] in ("Sub", "SubWithOverflow", "SubUnchecked"):
-            ob = f.origin(r["b"])
-            if any(x[0] == "downcast" and x[2] == "Ok" for x in origin_walk(ob)):
-                decs.append(bb)
-    back = False
-    for rb in reads:
-        for d in decs:
-            if d in f.reach([f.normal_target(rb)], unwind=False) and rb in f.reach([d], unwind=False):
-                back = True
-    ctx.ob("C09.2", "%s|count-decremented" % f.id, "the remaining count decreases by exactly what the read returned before looping", back, "%s:%d" % (f.file, f.line))
-    # the discard reads never ask for more than is still owed (otherwise the start of the next message is swallowed)
-    ctr = {s_["lhs"]["l"] for bb_, i_, s_ in f.assigns() if not s_["lhs"]["p"] and s_["rhs"]["rv"] == "use" and SFIELD in origin_fields(f.origin(s_["rhs"]["op"]))}
-    for bb_, i_, s_ in f.assigns():
-        if not s_["lhs"]["p"] and s_["rhs"]["rv"] == "use" and any(y[0] == "binop" for y in origin_walk(f.origin(s_["rhs"]["op"]))) and any(y[0] == "local" and y[1] in ctr for y in origin_walk(f.origin(s_["rhs"]["op"]))):
-            ctr.add(s_["lhs"]["l"])
-    for i, rb in enumerate(reads):
-        okb, why = shared.read_buffer_bounded_by(f, rb, ctr)
-        ctx.ob("C09.2", "%s|discard-read-bounded|%d" % (f.id, i), "each discarding read asks for at most the number of body bytes still owed", okb, f.loc(rb), why)
-    # initial remaining is self.size
-    init_ok = any(s["rhs"]["rv"] == "use" and SFIELD in origin_fields(f.origin(s["rhs"]["op"])) for bb, i, s in f.assigns() if not s["lhs"]["p"])
-    ctx.ob("C09.2", "%s|starts-from-size" % f.id, "the number of bytes to discard is the reader's remaining size", init_ok, "%s:%d" % (f.file, f.line))
+    import drain_rules as DR
+    DR.stops_rule(ctx, "C09.2", ER, "the length-limited body reader", emit=("repeats",))
+    DR.owed_rules(ctx, "C09.2", ER, (1, "*", "." + SFIELD))
 
     # ---- C09.6 end-of-body latches: a draining destructor that is switched off by a flag (`finished`) relies on that flag
     # being set only when the body really ended: after an inner read failed, or returned 0 into a NON-EMPTY buffer (a
@@ -216,12 +168,16 @@ def run(ctx):
     ok = len(nrc) == 1 and len(srcn) == 1
     detail = None
     if ok:
-        t0 = g.term(srcn[0])
+        # explored from the entry of the head reader (so that the helpers it is split into see their own arguments), with the
+        # draw from the reader chain modelled as handing out a fresh reader
         st = symex.Sym(g)
         NEW = ("sym", "freshly-drawn-reader")
         OLD = ("init", (1, "*", "." + keep[0]))
-        st.write_key(pl_key(t0["dest"]), ("some", NEW))
-        ps = [p for p in absint.explore(g, t0["target"], st, stop=lambda bb, t, s: "built" if bb == nrc[0][0] else None) if p.end[0] == "stop"]
+        def on_call(bb, t, args, s2):
+            if bb == srcn[0]:
+                return ("some", NEW)
+            return None
+        ps = [p for p in absint.explore(g, 0, st, on_call=on_call, stop=lambda bb, t, s: "built" if bb == nrc[0][0] else None, max_paths=3000) if p.end[0] == "stop"]
         ok = bool(ps)
         for p in ps:
             args = [absint.deep(p.state, p.state.operand(a)) for a in g.term(nrc[0][0])["args"]]
@@ -229,7 +185,7 @@ def run(ctx):
             kept = absint.deep(p.state, p.state.read_key((1, "*", "." + keep[0])))
             if not (given_old and kept == NEW):
                 ok = False
-                detail = "kept=%s" % symex.sym_str(kept)
+                detail = "kept=%s given=%s" % (symex.sym_str(kept), given_old)
     ctx.ob("C09.4", "%s|request-gets-positioned-reader" % PM.read_def, "the request's body reader is the reader the head was just read from; the connection keeps the freshly drawn one for the next head",
            ok, g.loc(nrc[0][0]) if nrc else "%s:%d" % (g.file, g.line), detail)
 
